@@ -1400,6 +1400,7 @@ func (m *Manager) AddPoolTransactions(txns []types.Transaction) (known bool, err
 		return known, err
 	}
 
+	nTxns := len(m.txpool.txns)
 	for _, txn := range txns {
 		txid := txn.ID()
 		if _, ok := m.txpool.indices[txid]; ok {
@@ -1408,6 +1409,11 @@ func (m *Manager) AddPoolTransactions(txns []types.Transaction) (known bool, err
 		ts := m.store.SupplementTipTransaction(txn)
 		if err := consensus.ValidateTransaction(m.txpool.ms, txn, ts); err != nil {
 			m.txpool.ms = nil // force revalidation next time the pool is queried
+			// the set is rejected as a whole: drop the transactions added so far
+			for _, added := range m.txpool.txns[nTxns:] {
+				delete(m.txpool.indices, added.ID())
+			}
+			m.txpool.txns = m.txpool.txns[:nTxns]
 			return false, fmt.Errorf("transaction %v conflicts with pool: %w", txid, err)
 		}
 		m.txpool.ms.ApplyTransaction(txn, ts)
@@ -1480,6 +1486,7 @@ func (m *Manager) AddV2PoolTransactions(basis types.ChainIndex, txns []types.V2T
 		return known, err
 	}
 
+	nTxns := len(m.txpool.v2txns)
 	for _, txn := range txns {
 		txid := txn.ID()
 		if _, ok := m.txpool.indices[txid]; ok {
@@ -1487,6 +1494,11 @@ func (m *Manager) AddV2PoolTransactions(basis types.ChainIndex, txns []types.V2T
 		}
 		if err := consensus.ValidateV2Transaction(m.txpool.ms, txn); err != nil {
 			m.txpool.ms = nil // force revalidation next time the pool is queried
+			// the set is rejected as a whole: drop the transactions added so far
+			for _, added := range m.txpool.v2txns[nTxns:] {
+				delete(m.txpool.indices, added.ID())
+			}
+			m.txpool.v2txns = m.txpool.v2txns[:nTxns]
 			return false, fmt.Errorf("transaction %v conflicts with pool: %w", txid, err)
 		}
 		m.txpool.ms.ApplyV2Transaction(txn)
